@@ -449,10 +449,26 @@ func (vc *FnVC) evalTerm(env *Env, x Expr) (*Val, error) {
 				return nil, err
 			}
 			s := sortOf(t)
-			if s == "" {
-				return nil, fmt.Errorf("cannot quantify over %s", b.Type)
-			}
 			bn := "q!" + b.Name
+			if s == "" {
+				// struct types usable as map keys are quantified as their key datatype
+				kn, _, ok := structKeySort(t)
+				if !ok {
+					return nil, fmt.Errorf("cannot quantify over %s", b.Type)
+				}
+				vc.mapKeys(types.NewMap(t, types.Typ[types.Bool]))
+				u := t.Underlying().(*types.Struct)
+				kv := &Val{T: t, S: bn, Fields: map[string]*Val{}}
+				for i := 0; i < u.NumFields(); i++ {
+					f := u.Field(i)
+					kv.Fields[f.Name()] = &Val{T: f.Type(), S: sx(kn+"."+f.Name(), bn)}
+					kv.Order = append(kv.Order, f.Name())
+				}
+				n.vars[b.Name] = kv
+				n.bound[bn] = true
+				bs = append(bs, "("+bn+" "+kn+")")
+				continue
+			}
 			n.vars[b.Name] = &Val{T: t, S: bn}
 			n.bound[bn] = true
 			bs = append(bs, "("+bn+" "+s+")")
@@ -760,6 +776,24 @@ func (vc *FnVC) evalCall(env *Env, c ECall) (*Val, error) {
 		}
 		a, b := vc.coerceNil(args[1], args[2])
 		return &Val{T: a.T, S: smtIte(args[0].S, a.S, b.S)}, nil
+	case "visited": // visited(k): in an invariant of a `range` loop over a map, k has already been yielded
+		if err := evalArgs(); err != nil {
+			return nil, err
+		}
+		if env.loop == nil || len(args) != 1 {
+			return nil, fmt.Errorf("visited(k) is only meaningful in the invariant of a range-over-map loop")
+		}
+		for b := range env.loop.blocks {
+			for _, in := range b.Instrs {
+				if nx, ok := in.(*ssa.Next); ok && !nx.IsString {
+					key := "IT!" + nx.Iter.Name()
+					if vc.keys[key] != nil {
+						return &Val{T: tBool, S: sx("select", vc.get(env.st, key), args[0].S)}, nil
+					}
+				}
+			}
+		}
+		return nil, fmt.Errorf("visited(): no map iterator in this loop")
 	case "arg": // arg(i): in an `at call` clause, the i-th argument of the matched call
 		if len(c.Args) != 1 {
 			return nil, fmt.Errorf("arg(i)")
@@ -838,7 +872,7 @@ func (vc *FnVC) evalCall(env *Env, c ECall) (*Val, error) {
 			return nil, fmt.Errorf("has(map, key)")
 		}
 		dom, _, _ := vc.mapKeys(mt)
-		return &Val{T: tBool, S: smtAnd(smtNot(sx("=", args[0].S, "0")), sx("select", sx("select", vc.get(env.st, dom.Name), args[0].S), args[1].S))}, nil
+		return &Val{T: tBool, S: smtAnd(smtNot(sx("=", args[0].S, "0")), sx("select", sx("select", vc.get(env.st, dom.Name), args[0].S), vc.mapKeyTerm(env.st, mt, args[1])))}, nil
 	case "base": // base(s): identity of the backing array of a slice
 		if err := evalArgs(); err != nil {
 			return nil, err
